@@ -14,7 +14,8 @@ def build(tier, seed):
                 '(a) exact path-wise statements (Brownian, geometric Brownian, Merton and Kou at zero intensity, Vasicek/local-vol/Heston steps) are identities of the terms produced by running the real generators on symbolic (n_paths, n_steps) inputs - for all sizes',
                 '(b) moment identities are derived from those terms by the moment calculus and discharged by z3 / sympy: GBM mean and log-variance, Merton mean and log-variance, Kou mean with the compensator checked against the SAMPLED jump law, CIR QE one-step mean and variance on both branches, Vasicek one-step mean/variance around theta from any start, local-vol martingale step (affine in a zero-mean normal)',
                 'multi-step means/variances follow from the one-step conditional moments by the tower property (affine conditional moments => closed-form mean reversion): trusted induction, not mechanised',
-                'NOT decided by this technique (stated, not approximated): Heston spot martingale property and the size of the return/variance correlation (Andersen\'s scheme is not exactly martingale), rough-Bergomi forward variance beyond the bounded Monte-Carlo stand-in, antithetic/Sobol engines\' marginal laws',
+                'Heston: each log-spot step is proved equal to the trapezoid discretisation of the exact representation d log S = -v/2 dt + (rho/sigma)(dv - kappa(theta - v)dt) + sqrt(1-rho^2) sqrt(v) dW_perp, so the return loads on the variance move with rho/sigma (sign and size of the coupling) and the orthogonal noise has conditional variance (1-rho^2) dt (v+v\')/2; the variance is the CIR process of the caller\'s parameters and time grid (callee contract)',
+                'NOT decided by this technique (stated, not approximated): the martingale property of the DISCRETISED Heston spot (Andersen\'s scheme is not exactly martingale) and the sample correlation as a number, rough-Bergomi forward variance beyond the bounded Monte-Carlo stand-in, antithetic/Sobol engines\' marginal laws',
             ],
             'level': 'proof', 'trusted_base': ['pfv executor + torch shim', 'moment calculus rules R1-R4', 'sympy (polynomial moments, integration over U)', 'z3 NRA'],
             'bounded_note': 'rough-Bergomi forward variance: seeded Monte Carlo on real torch (4e4 paths, horizons 0.5y and 1y)',
